@@ -77,3 +77,17 @@ Theorem C07_unpaired_covered : forall b, valid b = true -> forall db, stems b <>
     forall k, 1 <= k <= length b -> pair_at b k = 0 -> covered (elements b db) k.
 Proof. exact unpaired_covered. Qed.
 Print Assumptions C07_unpaired_covered.
+
+(* ... and in exactly one: counting, over everything `elements` reports (5'/3' tails, unlinked strands, hairpins, the
+   strands of all loops), the strands that have the unpaired nucleotide k in their interior gives 1.  In particular no loop
+   candidate is used twice by the loop search, in the same loop or in two loops. *)
+From RV Require Import Proofs.C07Once.
+Theorem C07_unpaired_exactly_once : forall b, valid b = true -> forall db, stems b <> [] ->
+    forall k, 1 <= k <= length b -> pair_at b k = 0 -> times_covered (elements b db) k = 1.
+Proof. exact unpaired_covered_once. Qed.
+Print Assumptions C07_unpaired_exactly_once.
+
+Theorem C07_loop_strands_used_once : forall b lc, NoDup (map s_first lc) -> (forall s, In s lc -> pair_at b (s_first s) <> s_last s) ->
+    NoDup (snd (loops_of b lc)) /\ incl (snd (loops_of b lc)) lc.
+Proof. exact used_once. Qed.
+Print Assumptions C07_loop_strands_used_once.
